@@ -179,7 +179,7 @@ def make_worker(tier):
             if node is None:
                 continue
             fname = Path(node.meta.filename).name
-            src = logger.sources.get(fname)
+            src = logger.sources.get(str(node.meta.filename), logger.sources.get(fname))
             if src is None or not (1 <= node.meta.line <= len(src.split("\n"))):
                 S.violation("C11.cite", "C11.cite/cited-line-does-not-exist/%s" % ("unknown-source" if src is None else "line-out-of-range"), inp, expected="line of %s" % fname, actual={"line": node.meta.line, "lines": None if src is None else len(src.split("\n")), "message": msg[:100]})
             elif src.split("\n")[node.meta.line - 1] not in rendered:
